@@ -177,6 +177,25 @@ pub fn run(kind: &str, args: &[&str]) -> Option<Obs> {
                 }
             }
         }
+        // property oracle: from_color(fg, bg) encodes in Blink mode to fg | bg << 4 (low nibbles), all u8 x u8:
+        // [number of mismatches, then up to 8 of them as fg, bg, byte]
+        "fromcolorrt" => {
+            let mut bad = Vec::new();
+            let mut n = 0i64;
+            for fg in 0..=255u8 {
+                for bg in 0..=255u8 {
+                    let got = TextAttribute::from_color(fg, bg).as_u8(IceMode::Blink);
+                    if got != (fg & 15) | ((bg & 15) << 4) {
+                        n += 1;
+                        if bad.len() < 24 {
+                            bad.extend([fg as i64, bg as i64, got as i64]);
+                        }
+                    }
+                }
+            }
+            v.push(n);
+            v.extend(bad);
+        }
         // property oracle: code -> unicode -> code on all 256 codes
         "cprt" => {
             let c = conv(args[0]);
